@@ -177,6 +177,14 @@ fn types_equal_inner(
         return false;
     }
 
+    // A different number of (non-skipped) generic params means that the generated types would
+    // not even take the same number of generic arguments; they can't be deduplicated.
+    let generic_param_count =
+        |ty: &Type<PortableForm>| ty.type_params.iter().filter(|p| p.ty.is_some()).count();
+    if generic_param_count(a_ty) != generic_param_count(b_ty) {
+        return false;
+    }
+
     #[rustfmt::skip]
     let mut compare_fields = |
         a: &Field<PortableForm>,
